@@ -17,7 +17,7 @@ RULE = ("BFS to closure of (real CSRBank/CSR SRAM FHDL x register-file reference
         "first word past the bank and same offset in another page, 3 data values / read) x device-side inputs per cycle")
 ASSUMPTIONS = [
     "2-state zero-delay FHDL semantics of litex.gen.sim",
-    "bus data alphabet {0, all-ones, 0xA5..}; status alphabet of 3 values; device writes never in the same cycle as a bus write to the same register",
+    "bus data alphabet {0, all-ones, 0xA5..}; status alphabet of 3 values; a device update coinciding with a bus write to the same register: the bus data lands on the addressed bits, the device value on the others",
     "dat_r follows the addressed word one cycle later whenever the page matches, regardless of re; strobes repeat if we/re are held (DESIGN 4b)",
     "atomic_write contract: writes to all but the last address are staged, the register changes in one cycle when the last address is written",
     "register menus of 1..3 registers, bus 8 and 32 bit, ordering big/little, bank address 0/3, paging 0x400/0x800",
@@ -177,11 +177,8 @@ class CsrHarness(Harness):
     def choices(self, env):
         out = []
         for b in self.busops:
-            tgt = self.locate(b[1])[1] if b[0] == "w" else None
             for dv in self.devops:
-                if tgt is not None and dv[tgt][0] == "d":
-                    continue
-                out.append((b, dv))
+                out.append((b, dv))      # incl. a device update in the very cycle of a bus write to the same register (the bus write must land)
         return out
 
     def drive(self, v, env, ch):
